@@ -3,7 +3,7 @@ import contracts.all  # noqa
 import contracts.storage as ST
 import contracts.standins_storage as B
 
-PROVED = [ST.save_from, ST.saver_close, ST.saver_save, ST.frontend_find, ST.can_overwrite]
+PROVED = [ST.save_from, ST.saver_close, ST.saver_save, ST.frontend_find, ST.can_overwrite, ST.filesaver_init]
 
 PROPERTY = Property(
     "C04", "proof",
@@ -22,5 +22,7 @@ PROPERTY = Property(
                 "chunk write has finished AND has been checked for an exception (a failed write is never reported as success); "
                 "close finalises the backend only after the closed flag is set and never after unfinished writes.  On the reading side "
                 "StorageFrontend.find (broken-data check on) returns only data whose metadata carries no exception and has writing_ended "
-                "(unless incomplete data was asked for), and overwrite='if_broken' permits overwriting exactly such invalid data.",
+                "(unless incomplete data was asked for), and overwrite='if_broken' permits overwriting exactly such invalid data; "
+                "FileSaver.__init__ removes whatever an earlier attempt left in the temporary directory (and an existing final directory) "
+                "before it creates the temporary directory anew.",
 )
